@@ -507,16 +507,16 @@ static void run_curve(Out& out, const CurveDesc& d) {
             Vec2 delta = pre - point0;
             A.cx = delta.x; A.cy = delta.y;
             A.nseg = c.point_array.count - n0;
-            // chord count against the formula (long double).  The theorem needs at least the count for the
-            // PARAMETER span; the C++ uses the geometric span (the same for circles), so for ellipses the
-            // count is not compared here: too few chords show up as deviation (finding F12).
-            if (rx == ry) {
+            // chord count against the formula (long double) for the PARAMETER span (what the theorem needs and,
+            // since fix 4b3b094, what Curve::arc uses).  Fewer chords on an ellipse is finding F12.
+            {
                 bool bnd;
-                uint64_t np = 1 + expected_arc_points(fabs(a_f - a_i), rx, tol, bnd);
+                uint64_t np = 1 + expected_arc_points(fabs(A.a1 - A.a0), rx > ry ? rx : ry, tol, bnd);
                 if (np < GDSTK_MIN_POINTS) np = GDSTK_MIN_POINTS;
                 uint64_t got = A.nseg + 1;
                 if (got < np && !(bnd && got + 1 == np))
-                    setfail("FAIL Curve::arc:count " + std::to_string(got) + " points, the chord formula gives " + std::to_string(np));
+                    setfail(std::string("FAIL ") + (rx == ry ? "Curve::arc:count " : "Curve::arc:ellipse-span ") + std::to_string(got) +
+                            " points, the chord formula for the parameter span gives " + std::to_string(np));
                 else if (got != np && !(bnd && (got + 1 == np || got == np + 1)))
                     out.count("arc:more-chords-than-formula");
             }
@@ -1366,7 +1366,8 @@ static void gen_shape(Rng& g, Out& out, bool thorough) {
     }
 }
 
-// the inputs of the defects already known (DESIGN section 7) run first on every campaign
+// the inputs of the defects F11 / F12 / F17 (fixed by 66f871b / 4b3b094 / 7a14b8c) run first on every campaign
+// as regression cases
 static void known_inputs(Out& out) {
     {  // F11: hairpin at tolerance 0.01
         CurveDesc d;
@@ -1386,8 +1387,8 @@ static void known_inputs(Out& out) {
         d.calls.push_back(c);
         run_curve(out, d);
     }
-    {  // F12 as first probed: 4 vertices over a parameter span of 0.32 rad.  Wrongly sized, but this stretch
-       // of the ellipse is nearly straight: the true deviation is 0.18 tol, so no failure is reported here.
+    {  // F12 as first probed: 4 vertices over a parameter span of 0.32 rad before the fix (the deviation was
+       // only 0.18 tol: this stretch of the ellipse is nearly straight).
         CurveDesc d;
         d.tol = 0.01;
         Call c;
@@ -1397,6 +1398,7 @@ static void known_inputs(Out& out) {
         run_curve(out, d);
     }
     {  // F12 around the end of the major axis (radius of curvature 0.01): 3 chords over 2.2 rad of parameter
+       // before the fix (673 tol)
         CurveDesc d;
         d.tol = 0.01;
         Call c;
